@@ -383,3 +383,19 @@ func (r *Receiver) Frame(f Frame) {
 
 // Open reports whether a fragmented message is in progress.
 func (r *Receiver) Open() bool { return r.cur != nil }
+
+// Clone copies the receiver state.
+func (r *Receiver) Clone() *Receiver {
+	c := *r
+	c.Delivered = append([]Message{}, r.Delivered...)
+	c.Pongs = append([][]byte{}, r.Pongs...)
+	if r.cur != nil {
+		m := *r.cur
+		m.Payload = append([]byte{}, r.cur.Payload...)
+		c.cur = &m
+	}
+	return &c
+}
+
+// Running reports whether the receiver still accepts frames.
+func (r *Receiver) Running() bool { return r.Failed == "" && !r.Closed && !r.Unjudged }
